@@ -308,7 +308,7 @@ func recheckBudget(tr *Trace, eng *bs.BloomSearchEngine, world CursorWorldSpec, 
 }
 
 func TestC21(t *testing.T) {
-	Ev.Rule = "same generated cursor scripts as C20 (datasets up to 36 blocks, early Close/cancel, read/open/iterator failures, gated iteration, slow consumers). Oracle from the harness's handle-accounting store wrapper: when Next returns false, and at the moment EACH individual Close call returns (sequential, asynchronous, or one of several concurrent ones), every handle the query opened has been closed and the iterator has returned; finally every handle closed exactly once, never used after close, never used by two goroutines at once; the MetaStore iterator has returned; goroutines with bloomsearch query frames (stack inspection) are gone within a 2 s settle window; then a follow-up match-all query with a read barrier must reach MaxQueryConcurrency simultaneous reads (when the dataset has that many blocks). contended phase: 2-6 queries sharing one engine with MaxQueryConcurrency 1-3, slow reads and slow handle Close calls, each query drained / closed / cancelled / stalled-then-closed at its own moment, optionally one failing read: same accounting when all have ended, then the budget recheck. Non-trivial: early termination mid-stream or a failure fired; distinct by case."
+	Ev.Rule = "same generated cursor scripts as C20 (datasets up to 36 blocks, early Close/cancel, read/open/iterator failures, gated iteration, slow consumers). Oracle from the harness's handle-accounting store wrapper: when Next returns false, and at the moment EACH individual Close call returns (sequential, asynchronous, or one of several concurrent ones), every handle the query opened has been closed and the iterator has returned; finally every handle closed exactly once, never used after close, never used by two goroutines at once; the MetaStore iterator has returned; goroutines with bloomsearch query frames (stack inspection) are gone within a 2 s settle window; then a follow-up match-all query with a read barrier must reach MaxQueryConcurrency simultaneous reads (when the dataset has that many blocks). contended phase: 2-6 queries sharing one engine with MaxQueryConcurrency 1-3, slow reads and slow handle Close calls, each query drained / closed / cancelled / stalled-then-closed at its own moment, optionally one failing read or one read handle whose Close reports an error: same accounting when all have ended, then the budget recheck. Non-trivial: early termination mid-stream or a failure fired; distinct by case."
 	Ev.Assumptions = []string{"'used by two goroutines at once' is detected when the overlap actually happens in a run", "goroutines are attributed to queries by their stack frames"}
 	runChecks(t, "scripts", 400, 10000, genCursorCase(true), runCursorProperty(judgeC21))
 	runChecks(t, "contended", 150, 4000, genC21Contended(), runC21Contended)
